@@ -573,7 +573,7 @@ example :
   decide +kernel
 
 open V.Limits V.Ident in
-/-- **Create events of the room versions with domain-less room IDs** (12, org.matrix.hydra.11; /repo 7ef197c): the room of
+/-- **Create events of the room versions with domain-less room IDs** (12, org.matrix.hydra.11; /repo 05d0d16): the room of
     such an event is named by its event ID, so nothing is demanded of the form of a `room_id` member it carries anyway —
     but the member is a field of the event: over 255 code points the event is refused, on receipt and on the trusted
     path, as the property says; a short one (here `!junk`, not a room ID) is tolerated.  Before the repair `checkRoomID`
